@@ -188,7 +188,7 @@ func (sp fieldSpec) values(cur reflect.Value) []fieldValue {
 		return []fieldValue{fv, {desc: "bool-as-string", jsons: []interface{}{fmt.Sprint(v)}}}
 	case sp.kind == reflect.Uint64:
 		var out []fieldValue
-		for _, v := range []uint64{0, 1, cur.Uint() + 1, 1 << 53, ^uint64(0)} {
+		for _, v := range []uint64{0, cur.Uint() + 1, 9007199254740993, ^uint64(0)} {
 			out = append(out, fieldValue{desc: fmt.Sprint(v), goVal: v, jsons: []interface{}{json.Number(fmt.Sprint(v))}, expect: fmt.Sprint(v)})
 		}
 		return append(out, fieldValue{desc: "number-as-string", jsons: []interface{}{"7"}}, fieldValue{desc: "negative", jsons: []interface{}{-1}},
@@ -405,6 +405,12 @@ func (ru *running) fieldGridHTTP() {
 		vals := sp.values(ru.sectionValue(sp.sec).FieldByIndex(sp.path))
 		for _, fv := range vals {
 			for _, j := range fv.jsons {
+				if js, ok := j.(string); ok && ((sp.tag == "leader-schedule-policy" && js != "count" && js != "size") || (sp.tag == "key-type" && js != "table" && js != "raw" && js != "txn")) {
+					// pd accepts it and its background statistics job then panics into log.Fatal: the
+					// process would be gone; these values are judged on the not-started server only
+					r.Count("skipped_process_killing_value_on_running_server", 1)
+					continue
+				}
 				if sp.tag == "replication-mode" && (j == "dr-auto-sync" || j == "DR_AUTO_SYNC") {
 					continue // starts the DR state machine (C19)
 				}
@@ -420,6 +426,12 @@ func (ru *running) fieldGridHTTP() {
 		// the key in another letter case, and an unknown sibling key, on the routes that decode JSON directly
 		if len(vals) > 0 && len(vals[0].jsons) > 0 {
 			j := vals[0].jsons[0]
+			switch sp.tag { // a legal value: see skipped_process_killing_value_on_running_server
+			case "leader-schedule-policy":
+				j = "size"
+			case "key-type":
+				j = "raw"
+			}
 			up := strings.ToUpper(sp.tag)
 			if !send(sp, "/config", map[string]interface{}{sp.sec + "." + up: j}, sp.tag+"=key-upper-case", "", true) {
 				return
@@ -480,7 +492,8 @@ func (ru *running) restart() {
 		return
 	}
 	pre := servedSecs(ru.s)
-	ru.cancel() // context first, as cmd/pd-server does
+	ru.s.SetStorage(ru.origStorage) // Close must release the server's own storage (region leveldb lock)
+	ru.cancel()                     // context first, as cmd/pd-server does
 	ru.s.Close()
 	ctx, cancel := context.WithCancel(context.Background())
 	s, err := server.CreateServer(ctx, ru.cfg, api.NewHandler)
